@@ -84,9 +84,16 @@ def main(argv=None):
 
     # classify counterexamples
     os.makedirs(os.path.join(HERE, 'replays'), exist_ok=True)
+    for old in os.listdir(os.path.join(HERE, 'replays')):
+        if old.startswith(pid + '-') and old.endswith('.json'):
+            os.unlink(os.path.join(HERE, 'replays', old))
     violations, known_hit, unreproduced = [], {}, []
+    known_unreproduced = 0
     for cx in cexs:
         if not cx.get('reproduced'):
+            if cx.get('finding') in known_ids:
+                known_unreproduced += 1     # a recorded finding whose replay was not applicable in this configuration: neither alarm nor error
+                continue
             unreproduced.append(cx)
             continue
         fid = cx.get('finding')
